@@ -30,6 +30,7 @@ EXPLANATION = (
     "iff kept. "
     'Round 7: (FRESHSUB, shared with C16-FRESH) a reported score comes from a sub-optimizer without history. '
     "Round 8 (engine E9): (PUREFNS) the processor's pure leg-arithmetic functions are evaluated on every pair of simplified terms over three indices and compared with the tree's survival rule and cost definitions. "
+    '(RGCOST, shared with C05-RGEVAL) random-greedy reports the cost of the path it returns on a bounded family. '
 )
 ASSUMPTIONS = ("merged appearance count never exceeds the global count",)
 
@@ -952,4 +953,13 @@ def rule_purefns(ctx):
     return r
 
 
-RULES = [rule_purefns, rule_freshsub, rule_surv, rule_appear, rule_drop, rule_pre, rule_prelegs, rule_bestpair, rule_report, rule_merge, rule_flops]
+def rule_rgcost(ctx):
+    """Shared with C05-RGEVAL reported-cost (engine E9): the random-greedy finder, evaluated end to end on every small
+    network without an index on all tensors, reports the operation count of the path it returns."""
+    from .c05 import rule_rgeval as src
+
+    return C.reuse_rule(ctx, src, "C05-RGEVAL", "C18-RGCOST", "random-greedy reports the cost of the path it returns (bounded family)",
+                        lambda i: "reported-cost" in i.construct, 1)
+
+
+RULES = [rule_rgcost, rule_purefns, rule_freshsub, rule_surv, rule_appear, rule_drop, rule_pre, rule_prelegs, rule_bestpair, rule_report, rule_merge, rule_flops]
